@@ -26,7 +26,7 @@ HIST_RULE = ("hist driver: seeded random histories (login, proxied request with 
 
 MANAGER_SECTIONS = ['Manager/' + n for n in ('create', 'delete', 'deleteForExternalID', 'getOrRefresh', 'refresh', 'deleteForKey', 'update', 'acquireLock', 'readerGet', 'getForTicket', 'redisRead', 'redisWrite', 'redisUpdate', 'redisDelete', 'redisMakeLock', 'memoryUpdate', 'memoryMakeLock', 'redisLockAcquire', 'redisLockRelease', 'retryFibonacci', 'retryDo', 'retryDoValue')] + \
     ['pkg/session/session_manager.go', 'pkg/session/session_reader.go', 'pkg/session/store_redis.go', 'pkg/session/store_memory.go', 'pkg/session/lock.go']
-HANDLER_SECTIONS = ['Handlers/' + n for n in ('getSession', 'logout', 'logoutLocal', 'logoutCallback', 'logoutFrontChannel', 'sessionInfo', 'sessionRefresh', 'sessionForwardAuth', 'handleGetSessionError', 'loginCallback', 'proxyGetSession', 'proxyHandler', 'getSessionWithValidToken', 'handleAutologin', 'proxyGetSSOServerURL', 'proxyLogin', 'proxyLoginCallback', 'proxyLogout', 'proxyLogoutCallback', 'proxyLogoutFrontChannel', 'proxyLogoutLocal', 'proxySession', 'proxySessionRefresh', 'proxySessionForwardAuth', 'proxyWildcard', 'serverLogout', 'serverLogoutFrontChannel', 'serverLogoutLocal', 'serverWildcard', 'clientLoginCallback', 'issuerIdentification', 'redeemTokens', 'stateMismatchError', 'getCookieOptions', 'login', 'applyLoginRateLimit', 'respondError', 'retryURI', 'newStandaloneRedirect', 'standaloneCanonical', 'standaloneClean', 'standaloneFallback', 'newSSOServerRedirect', 'ssoServerCanonical', 'ssoServerClean', 'newSSOProxyRedirect', 'ssoProxyCanonical', 'ssoProxyClean', 'ssoProxyFallback', 'cleanRedirect', 'redirectQueryParam', 'fallbackRedirect', 'absoluteIsValid', 'relativeIsValid', 'parsableRequestURI', 'isAllowedHost', 'isValidScheme', 'isRelativeURL', 'isValidAbsolutePath', 'isAllowedDomain', 'acrHandlerValidate', 'acrNewHandler', 'matchingIngress', 'matchingPath', 'parseIngress', 'mustScheme', 'clientLogin', 'newAuthorizationCodeParams', 'authCodeURL', 'loginSetCookie', 'authRequestParams', 'authCookie', 'parRequestParams')] + \
+HANDLER_SECTIONS = ['Handlers/' + n for n in ('getSession', 'logout', 'logoutLocal', 'logoutCallback', 'logoutFrontChannel', 'sessionInfo', 'sessionRefresh', 'sessionForwardAuth', 'handleGetSessionError', 'loginCallback', 'proxyGetSession', 'proxyHandler', 'getSessionWithValidToken', 'handleAutologin', 'proxyRewrite', 'proxyErrorHandler', 'newUpstreamProxy', 'mwWithAccessToken', 'mwAccessTokenFrom', 'mwWithIdToken', 'mwIdTokenFrom', 'proxyGetSSOServerURL', 'proxyLogin', 'proxyLoginCallback', 'proxyLogout', 'proxyLogoutCallback', 'proxyLogoutFrontChannel', 'proxyLogoutLocal', 'proxySession', 'proxySessionRefresh', 'proxySessionForwardAuth', 'proxyWildcard', 'serverLogout', 'serverLogoutFrontChannel', 'serverLogoutLocal', 'serverWildcard', 'clientLoginCallback', 'issuerIdentification', 'redeemTokens', 'stateMismatchError', 'getCookieOptions', 'login', 'applyLoginRateLimit', 'respondError', 'retryURI', 'newStandaloneRedirect', 'standaloneCanonical', 'standaloneClean', 'standaloneFallback', 'newSSOServerRedirect', 'ssoServerCanonical', 'ssoServerClean', 'newSSOProxyRedirect', 'ssoProxyCanonical', 'ssoProxyClean', 'ssoProxyFallback', 'cleanRedirect', 'redirectQueryParam', 'fallbackRedirect', 'absoluteIsValid', 'relativeIsValid', 'parsableRequestURI', 'isAllowedHost', 'isValidScheme', 'isRelativeURL', 'isValidAbsolutePath', 'isAllowedDomain', 'acrHandlerValidate', 'acrNewHandler', 'matchingIngress', 'matchingPath', 'parseIngress', 'mustScheme', 'clientLogin', 'newAuthorizationCodeParams', 'authCodeURL', 'loginSetCookie', 'authRequestParams', 'authCookie', 'parRequestParams')] + \
     ['pkg/handler/handler.go', 'pkg/handler/handler_sso_proxy.go', 'pkg/handler/handler_sso_server.go', 'pkg/handler/reverseproxy.go', 'pkg/openid/client/login_callback.go', 'pkg/openid/oauth2.go', 'pkg/handler/error.go', 'pkg/url/redirect.go', 'pkg/url/validator.go', 'pkg/handler/acr/acr.go', 'pkg/ingress/ingress.go', 'pkg/openid/client/login.go']
 ENVELOPE_SECTIONS = ['Envelope/' + n for n in ('newCrypter', 'encryptionKeyOrGenerate', 'crypterEncrypt', 'crypterDecrypt', 'cookieEncrypt', 'cookieDecrypt', 'cookieGet', 'cookieGetDecrypted', 'cookieEncryptAndSet', 'cookieSet', 'newTicket', 'ticketCrypter', 'ticketKey', 'ticketSetCookie', 'getTicket', 'encryptedDataDecrypt', 'dataEncrypt', 'dataValidate', 'sessionEncrypt', 'sessionKey', 'sessionSetCookie', 'sessionAccessToken', 'newSession')]
 PROVIDER_SECTIONS = ['Provider/' + n for n in ('newTokens', 'parseIDToken', 'idTokenValidate', 'idTokenClaim', 'idTokenStringClaim', 'idTokenSid', 'idTokenAcr', 'authCodeGrant', 'refreshGrant', 'clientAuthenticationParams', 'makeAssertion', 'oauthPostRequest', 'newLogout', 'singleLogoutURL', 'logoutSetCookie', 'newLogoutCallback', 'postLogoutRedirectURI', 'logoutStateMismatchError', 'newLogoutFrontchannel', 'frontchannelSid', 'frontchannelMissingSid')]
@@ -48,7 +48,7 @@ def _merge(*ds):
 
 PROPS = {
     'C01': {
-        'proofs': ['Ww.Proofs.C01', 'Ww.Proofs.GenTie.C01', 'Ww.Proofs.GenTie.Handlers', 'Ww.Proofs.GenTie.Ingress', 'Ww.Proofs.GenTie.Grant'],
+        'proofs': ['Ww.Proofs.C01', 'Ww.Proofs.GenTie.C01', 'Ww.Proofs.GenTie.Handlers', 'Ww.Proofs.GenTie.Ingress', 'Ww.Proofs.GenTie.Grant', 'Ww.Proofs.GenTie.ProxyHeaders'],
         'gen_sections': HANDLER_SECTIONS + ['Meta', 'pkg/session/data.go', 'Dec/acrValidate', 'pkg/openid/acr/acr.go', 'Dec/sessionCanRefresh', 'Dec/sessionShouldRefresh', 'Dec/sessionYieldsToken', 'Dec/acrValidate', 'pkg/session/session.go'] + PROVIDER_SECTIONS,
         'drivers': [{'name': 'hist'}, {'name': 'meta'}],
         'reasons': ['C01.'],
@@ -59,7 +59,8 @@ PROPS = {
                       "also right after an automatic refresh), completeness (such a session always gets its token set, replacing client values) and the no-session corollary are Lean theorems about the "
                       "handler model for EVERY cookie/store state, provider answer, configuration and clock value; the time predicates inside are regenerated from data.go on each run; the hand-written "
                       "handler model is tied to the real handlers by per-step differential histories in all three modes, and the Spec is evaluated on every implementation step." + HANDLER_TIE +
-                      " Client.RefreshGrant and the back-channel POST are translated on every run (Gen/Provider): a refresh answer is accepted on one path only (authenticated POST of the caller's refresh token to the token endpoint, body parsed, access token present); 4xx is a client error, 5xx a server error, a body is handed on only from a non-error answer.",
+                      " Client.RefreshGrant and the back-channel POST are translated on every run (Gen/Provider): a refresh answer is accepted on one path only (authenticated POST of the caller's refresh token to the token endpoint, body parsed, access token present); 4xx is a client error, 5xx a server error, a body is handed on only from a non-error answer." +
+                      " The Rewrite function of the reverse proxy and the context helpers are translated on every run (Gen/Handlers: proxyRewrite, mw*): authorization is SET (replacing the client's) to \"Bearer \" + the token found in the inbound request's context iff there is one, the ID-token header likewise, nothing else is set, added or deleted.",
         'level_note': "Trusted: Lean kernel; AEAD authenticity (a ciphertext that decrypts under a key was produced under it); one clock reading per request; httputil.ReverseProxy header handling "
                       "(exercised with forged / hop-by-hop headers); hand-written model of session_manager/reverseproxy tied only by differential runs.",
         'technique': 'Lean 4 proof over handler model (decision logic) + regenerated time predicates + differential histories',
